@@ -56,7 +56,7 @@ def replay(path):
         print("impl :", V.run_lines(unit, [rp["case"]])[1])
         if rp["case"].startswith("MS"):
             print("model:", V.run_lines(model, [rp["case"]])[1])
-    elif kind in ("crash", "load", "load-name"):
+    elif kind in ("crash", "load", "load-name", "fsize"):
         vsim = V.build_prog("vsim", PROGS["vsim"])
         model = V.extract_model("C11", EXTRACT, DRIVER, [])
         CRASH.replay(rp, vsim, model)
